@@ -621,13 +621,17 @@ func (t verifConfTmpl) args(x string) []string {
 func (s *verifConfSuite) runPairs(c *C, newHistory func(status map[string]string)) int {
 	tm := verifConfTemplates()
 	n := 0
+	variants := []string{"plain", "progress", "mutated"}
+	if os.Getenv("VERIF_PAIRS") == "plain" {
+		variants = []string{"plain", "mutated"}
+	}
 	for _, first := range tm {
 		for _, second := range tm {
 			if second.op == "pre-download" || second.op == "become-operational" {
 				continue
 			}
 			for _, y := range []string{"a", "b"} {
-				for _, variant := range []string{"plain", "progress", "mutated"} {
+				for _, variant := range variants {
 					x := "a"
 					status := map[string]string{"a": "active", "b": "active", "c": "active"}
 					ok := true
@@ -764,7 +768,7 @@ func (s *verifConfSuite) TestVerifConflictsRun(c *C) {
 		s.emit(c, "Reset", map[string]interface{}{}, nil, true)
 	}
 	pairs := 0
-	if os.Getenv("VERIF_PAIRS") == "1" {
+	if os.Getenv("VERIF_PAIRS") != "" && os.Getenv("VERIF_PAIRS") != "0" {
 		pairs = s.runPairs(c, newHistory)
 	}
 	for i := 0; i < n; i++ {
